@@ -425,7 +425,7 @@ def configs(
                                   stack_styles))
     chip_t = draw(st.sampled_from(chips))
     rk = None
-    if rake and draw(st.integers(0, 3)) == 0:
+    if rake and (rake == 'always' or draw(st.integers(0, 3)) == 0):
         num, den = draw(st.sampled_from([(0, 1), (3, 100), (5, 100),
                                          (1, 10), (1, 4), (1, 1)]))
         cap = draw(st.sampled_from([None, None, 1, 3, 10]))
